@@ -52,6 +52,43 @@ CLAIMS = {
         "grammar cache is redirected to a scratch directory). Axioms: none.",
         "6 (C20)",
     ),
+    "C17": (
+        "Coq: (a) soundness-proved reachability checker evaluated in the kernel on the effect skeleton regenerated from /repo "
+        "(inventory of every exec/eval/compile/import_module/process/network/file-write site reachable from parsers, emitters, "
+        "doctrans, sync, gen with input_eval=False); (b) proof by induction over the docstring text that the whitelist in front of "
+        "the one approved eval passes only word characters; correspondence of that model + audit-hook runs on adversarial inputs",
+        "C17_sites: every execution of every parser/emitter/doctrans/sync/gen entry point of the regenerated skeleton with "
+        "input_eval=False touches only sites of the approved list (exact call text: the adhoc eval, literal/closed-table "
+        "import_module, gen's prepend/input-mapping opt-ins, writes to the named output); a new eval, a literal_eval widened to "
+        "eval, a changed call text or a removed input_eval guard breaks the proof. C17_import_time: module-level code reaches "
+        "only literal import_module sites. C17_phase0_alphabet (for every string): the sentences/words/candidate type that phase 0 "
+        "of parse_adhoc_doc_for_typ hands on contain only ASCII letters, digits, backtick, quotes, / | . ; , and whitespace, and "
+        "C17_allowed_excludes: none of ( ) [ ] { } _ : = @ passes. Phase 1 and the union builder are not transcribed: that they "
+        "only select substrings/constants is checked on the implementation's result per generated text (partial). The model is "
+        "compared with _parse_adhoc_doc_for_typ_phase0 on thousands of grammar-generated texts per run; adversarial modules are run "
+        "through the library parsers/emitters, doctrans and sync under sys.addaudithook with sentinel files.",
+        "Trusted: Coq kernel incl. vm_compute; translate/effects.py; the approved list (by inspection, in Properties/C17.v); "
+        "CPython lexical fact that an expression over the whitelist alphabet contains no call/lambda/dunder; dynamic dispatch via "
+        "getattr/import_module results is outside the skeleton. Axioms: none.",
+        "6 (C17)",
+    ),
+    "C19": (
+        "Coq: soundness proof of a straight-line guard checker evaluated in the kernel on the gen branch of main() regenerated from "
+        "/repo; proofs (for all templates and name lists) about __all__ accumulation, symbol naming and body re-ordering of a "
+        "hand-written model tied to gen by differential runs of `python -m cdd gen`",
+        "C19_guard: on the statement list of the `gen` branch of cdd/__main__.py:main that translate/guards.py regenerates on every "
+        "run, when the output file exists and phase = 0 gen is never called (C19_guard_sound proves the checker for every statement "
+        "list; a removed/edited guard, a call moved in front of it, or a re-binding of args/args_dict breaks the proof). "
+        "C19_all_exact / C19_symbols_defined / C19_reorder_keeps_everything: for every template and every list of entry names, "
+        "__all__ is exactly the formatted names in order without duplicates, equals the emitted symbol names when the template "
+        "yields plain identifiers, and the body re-ordering is a permutation keeping definitions in order. The model's prediction is "
+        "compared with the module written by real gen runs (emit kind x parse kind x template x flags x output absent/present, "
+        "including a '~' spelling of an existing output). Parse-back equivalence of each symbol and import completeness are "
+        "observed only / left to C02,C05,C06: partial.",
+        "Trusted: Coq kernel; translate/guards.py; extraction + driver; the harness. Known findings: function/pydantic kinds and "
+        "import inference fail; sqlalchemy* ignore the template. Axioms: none.",
+        "6 (C19)",
+    ),
 }
 
 NOT_YET = "check not built yet in this development (DESIGN.md section 8 gives the order of work)"
